@@ -17,7 +17,7 @@ pub fn def() -> PropDef {
         streams,
         run,
         floors,
-        rule: "fault injection: a control message is built from k AVP records, a chosen subset made individually undecodable by one named fault each (truncated payload, bad UTF-8, unassigned attribute, unknown message-type code at a non-first position, bad error type, vendor id != 0, bad proxy authen type) or given an unusable length (< 6, or past the body). Every placement of every fault kind for k <= 4 is enumerated, k <= 8 sampled. Expected: Ok(all k values in order) iff no fault and the first record is a Message Type; otherwise Err(non-empty); with a valid Message Type first the list has exactly one error per faulty record up to and including the first unusable length, each of the expected class, in wire order. Distinct = distinct messages; non-trivial = at least one fault or k >= 2.",
+        rule: "fault injection: a control message is built from k AVP records, a chosen subset made individually undecodable by one named fault each (truncated payload, bad UTF-8, unassigned attribute, unknown message-type code at a non-first position, bad error type, vendor id != 0, bad proxy authen type) or given an unusable length (< 6, or past the body). Every placement of every fault kind for k <= 4 is enumerated, k <= 8 sampled. Expected: Ok(all k values in order) iff no fault and the first record is a Message Type; otherwise Err(non-empty); with a valid Message Type first the list has exactly one error per faulty record up to and including the first unusable length, each of the expected class, in wire order. Distinct = distinct messages; non-trivial = at least one fault or k >= 2. Also: 4095..10900 minimal records in front of the faulty ones.",
     }
 }
 
